@@ -19,7 +19,7 @@ def unhex (s : String) : Option ByteArray :=
       go r (acc.push (UInt8.ofNat (x * 16 + y)))
   go s.toList ByteArray.empty
 
-def hexDigit (n : Nat) : Char := if n < 10 then Char.ofNat (48 + n) else Char.ofNat (87 + n)
+private def hexDigit (n : Nat) : Char := if n < 10 then Char.ofNat (48 + n) else Char.ofNat (87 + n)
 
 def hexOf (s : String) : String :=
   String.ofList (s.toUTF8.toList.flatMap (fun b => [hexDigit (b.toNat / 16), hexDigit (b.toNat % 16)]))
